@@ -212,8 +212,8 @@ class BigEdge:
         :rtype: list
         """
         vobject = self.get_vertex_object_by_id(vid)
-        if method == "edge" and len(self.vertices) < 3:
-            # two points define a straight line, not a circle: its direction is the tangent
+        if method == "edge" and self.is_straight():
+            # collinear points (two points included) define a straight line, not a circle: its direction is the tangent
             return np.array(self.get_straight_edge_versor_from_vid(vid), dtype=float)
         if method == "edge":
             xc, yc = ve.calculate_circle_center(self.vertices, method=fit_method)
@@ -223,16 +223,22 @@ class BigEdge:
             raise Exception("Method for versor doesn't exist or cell missing")
 
         vector = np.array((- (vobject.y - yc), (vobject.x - xc)))
-        straight = np.array(self.get_straight_edge_versor_from_vid(vid), dtype=float)
-        if abs(np.dot(vector, straight)) <= 1e-6 * np.linalg.norm(vector) * np.linalg.norm(straight):
-            # degenerate fit of collinear points (centre on the interface's own line): use the straight direction
-            vector = straight
 
         correct_sign = self.get_versor_sign(vid)
         if np.any(np.sign(vector) != correct_sign):
             correction = correct_sign * np.sign(vector)
             vector = vector * correction
         return vector
+
+    def is_straight(self, tolerance: float = 1e-9) -> bool:
+        """
+        True if all the points of the big edge lie on the straight line through its two ends
+        """
+        xs, ys = np.array(self.xs, dtype=float), np.array(self.ys, dtype=float)
+        dx, dy = xs[-1] - xs[0], ys[-1] - ys[0]
+        length_squared = dx * dx + dy * dy
+        return bool(length_squared > 0 and
+                    np.max(np.abs(dx * (ys - ys[0]) - dy * (xs - xs[0]))) <= tolerance * length_squared)
 
     def get_vertex_object_by_id(self, vid: int) -> object:
         """
